@@ -2,6 +2,7 @@ package props
 
 import (
 	"bytes"
+	"context"
 	"encoding/base64"
 	"encoding/json"
 	"fmt"
@@ -32,6 +33,8 @@ type HTTPCase struct {
 	BodyB64     string       `json:"body_b64"`
 	BodyText    string       `json:"body_text,omitempty"` // informational (when printable)
 	Kind        string       `json:"kind"`
+	// CtxDone: the context of the client's request is already cancelled when the handler is called
+	CtxDone bool `json:"ctx_done,omitempty"`
 }
 
 func (c *HTTPCase) Body() []byte {
@@ -415,7 +418,13 @@ func checkC07(c *HTTPCase) (*ev.Failure, string) {
 		return f, ""
 	}
 	want, reqs, batch := judge(c)
-	resp := gwx.Post(gw, c.Body(), c.ContentType, 10*time.Second)
+	ctx := context.Background()
+	if c.CtxDone {
+		cctx, cancel := context.WithCancel(ctx)
+		cancel()
+		ctx = cctx
+	}
+	resp := gwx.PostCtx(ctx, gw, c.Body(), c.ContentType, 10*time.Second)
 	if resp.TimedOut {
 		return ev.Failf("hang", "handler did not return within 10s"), ""
 	}
@@ -912,10 +921,11 @@ func c07Features(c *HTTPCase) []string {
 
 func TestC07(t *testing.T) {
 	rec := ev.Get("C07")
-	rec.Rule = "POST bodies x content types against gateways over generated worlds (incl. abstract types without members): raw bytes, hostile constants, byte-mutated valid bodies, JSON shapes (null, arrays with non-objects, wrong member types, duplicate/odd-case keys), multipart layouts (missing/garbled operations or map, out-of-range/negative/malformed paths, missing files), syntactically valid operations (valid, invalid, root __typename, introspection mixes), batches of 16..300 operations. Oracle: returns, no panic, status 422 iff undecodable by an independent reading of the documented shape (open cases accept either), JSON envelope, invalid => errors + data:null, probe request served afterwards. non-trivial = not a verbatim hostile constant; distinct by hash(content type, body, schema)"
+	rec.Rule = "POST bodies x content types against gateways over generated worlds (incl. abstract types without members): raw bytes, hostile constants, byte-mutated valid bodies, JSON shapes (null, arrays with non-objects, wrong member types, duplicate/odd-case keys), multipart layouts (missing/garbled operations or map, out-of-range/negative/malformed paths, missing files), syntactically valid operations (valid, invalid, root __typename, introspection mixes), batches of 16..300 operations; in a twentieth of the cases the context of the client's request is already cancelled. Oracle: returns, no panic, status 422 iff undecodable by an independent reading of the documented shape (open cases accept either), JSON envelope, invalid => errors + data:null, probe request served afterwards. non-trivial = not a verbatim hostile constant; distinct by hash(content type, body, schema)"
 	defer census.dump("C07")
 	rapid.Check(t, func(t *rapid.T) {
 		c := genHTTPCase(t)
+		c.CtxDone = rapid.IntRange(0, 19).Draw(t, "ctxdone") == 0 // the client has given up already
 		for _, f := range c07Features(c) {
 			if gateClosed(f) {
 				rec.Exclude(f)
